@@ -217,7 +217,7 @@ def register(reg):
     @reg.contract
     class IncludeRequestHeaders(Contract):
         key = M + "include_request_headers"
-        props = ("C03", "C19")
+        props = ("C03", "C19", "C18")
         suspends = False
         params = {"headers": "seq:hdr"}
         variants = [("no_content", {"content": "none"}), ("bytes_content", {"content": "bytes"}), ("iterator_content", {"content": "val"})]
@@ -260,7 +260,8 @@ def register(reg):
         def ensures(self, c):
             exp, hostval, default = self.spec(c)
             r = c.eng.coerce(c.st, c.result, "seq:hdr").t
-            return [("default_headers_spec", ("C03", "C19"), r == exp)]
+            # C18: the one shared function both flavours go through treats an async iterator body like a sync one
+            return [("default_headers_spec", ("C03", "C19", "C18"), r == exp)]
 
     def F(c, ref, key, old=False):
         return (c.old(ref, key) if old else c.new(ref, key)).t
